@@ -121,7 +121,15 @@ def formal_charge(state):
 def expected_atoms(state):
     """Atom names the topology defines for a state-qualified canonical name."""
     _aa, _na, _p, canonical = T.load()
-    return [a for a in canonical[state].atoms if a not in ("N+1", "C-1")]
+    names = [a for a in canonical[state].atoms if a not in ("N+1", "C-1")]
+    # ASH/GLH templates list both candidate proton positions (HD1/HD2,
+    # HE1/HE2); a protonated acid carries one proton, named HD2 / HE2
+    core = state[-3:]
+    if core == "ASH":
+        names = [a for a in names if a != "HD1"]
+    elif core == "GLH":
+        names = [a for a in names if a != "HE1"]
+    return names
 
 
 # ---------------------------------------------------------------------------
